@@ -108,9 +108,12 @@ Theorem c02_local_injection : forall f f3 ns me r q m id k,
 Proof. exact local_injection. Qed.
 Print Assumptions c02_local_injection.
 
-(* The identity is taken from the envelope, never from the wire: the
-   ServerIdentity field of the received ProtocolMsg and the tree named by its
-   sender token do not influence anything. *)
+(* The identity is taken from the envelope, never from the wire, and of that
+   identity only the public KEY counts: the ServerIdentity field of the received
+   ProtocolMsg, the tree named by its sender token and the self-declared ID
+   field of the envelope's identity ([i_decl], e.g. the victim's ID copied into
+   the attacker's handshake identity) do not influence anything
+   ([same_content] does not mention them). *)
 Theorem c02_wire_identity_ignored : forall f c l l',
   Forall2 same_content l l' -> run f c l = run f c l'.
 Proof. exact run_wire_irrelevant. Qed.
@@ -155,7 +158,7 @@ Print Assumptions c02_agree_repaired_clean.
 (* Satisfiability of the hypotheses: a legitimate message is delivered as itself. *)
 Example c02_authentic_example :
   let c := {| c_tree := two_nodes; c_insts := [0]; c_regs := regs_h1 |} in
-  let l := [{| i_inst := 0; i_env := PKey 1;
+  let l := [{| i_inst := 0; i_env := PKey 1; i_decl := None;
                i_wire := {| w_from := Some 1; w_from_other_tree := false; w_si := Some 0;
                             w_type := 1; w_payload := 42 |} |}] in
   all_deliveries (run pinned c l) =
@@ -167,7 +170,7 @@ Print Assumptions c02_authentic_example.
 (* The two refutation witnesses on the repaired variant: refused, nothing delivered. *)
 Example c02_repaired_on_witnesses :
   let c := {| c_tree := two_nodes; c_insts := [0]; c_regs := regs_h1 |} in
-  let mk from := [{| i_inst := 0; i_env := PKey 1;
+  let mk from := [{| i_inst := 0; i_env := PKey 1; i_decl := None;
              i_wire := {| w_from := from; w_from_other_tree := false; w_si := None;
                           w_type := 1; w_payload := 42 |} |}] in
   run repaired c (mk (Some 7)) = [RStep [] SErr] /\ run repaired c (mk None) = [RStep [] SErr].
